@@ -26,4 +26,18 @@ mod verif_kani_vars {
         kani::cover!(a > 0.0 && b > 0.0);
         std::mem::forget(z); std::mem::forget(cones);
     }
+
+    // PROBE for known finding F8 (C15, last clause): for a second-order cone the margin z0 - |z1..| is itself a float; with a hugely
+    // negative scalar part it is rounded (-1e17 - 5 == -1e17), the first shift brings z0 to 0, the second to `target` = 1, and
+    // (1, 3, 4) is outside the cone.  Single concrete input; fails on the current tree (listed in known_findings.json).
+    #[kani::proof]
+    #[kani::stub(std::collections::hash_map::RandomState::new, fixed_random_state)]
+    #[kani::unwind(5)]
+    fn shift_to_cone_interior_soc_probe() {
+        let mut cones = fixture(&[SupportedConeT::SecondOrderConeT(3)]);
+        let mut z = vec![-1e17f64, 3.0, 4.0];
+        _shift_to_cone_interior(&mut z, &mut cones, PrimalOrDualCone::PrimalCone);
+        assert!(z[0] > 0.0 && z[0] * z[0] > z[1] * z[1] + z[2] * z[2]);
+        std::mem::forget(z); std::mem::forget(cones);
+    }
 }
